@@ -29,8 +29,8 @@ const char *__asan_default_options(void) { return "max_allocation_size_mb=300"; 
 const char *verif_property = "C06";
 const char *verif_class_names[] = { "handshake_prefix_then_close", "handshake_split_delivery", "handshake_field_mutated", "handshake_garbage", "handshake_oversized", "handshake_silent_peer",
 	"hdr_size_larger_than_sent", "hdr_size_smaller_than_sent", "hdr_size_zero_or_negative", "sent_beyond_maximum", "shorter_than_header", "shm", "socket",
-	"raw_peer_accepted", "victim_dropped_by_server", "honest_message", NULL };
-enum { K_PREFIX, K_SPLIT, K_FIELD, K_GARBAGE, K_OVERSIZE, K_SILENT, K_LARGER, K_SMALLER, K_ZERONEG, K_BEYOND, K_SHORT, K_SHM, K_SOCK, K_RAWACC, K_DROPPED, K_HONEST };
+	"raw_peer_accepted", "victim_dropped_by_server", "honest_message", "accepted_client_negotiated_tiny_maximum", NULL };
+enum { K_PREFIX, K_SPLIT, K_FIELD, K_GARBAGE, K_OVERSIZE, K_SILENT, K_LARGER, K_SMALLER, K_ZERONEG, K_BEYOND, K_SHORT, K_SHM, K_SOCK, K_RAWACC, K_DROPPED, K_HONEST, K_TINYMAX };
 const char *verif_rule =
 	"case = transport and an op list: open a raw stream socket to the service, send a piece of a handshake (prefix of a valid request, a request with id/size/max_msg_size mutated, garbage, "
 	"oversized tail), close / half-close it or leave it silent, step the server; raw request messages of an accepted client (real length 0..4x the negotiated maximum, header length field "
@@ -81,6 +81,19 @@ extern "C" ssize_t __wrap_recv(int fd, void *buf, size_t len, int flags)
 		}
 	}
 	return __real_recv(fd, buf, len, flags);
+}
+
+/* ---- send(): the next handshake request that leaves this process asks for the maximum message size the case chose (the client library never asks for less than 8 KiB; a hostile client can) */
+extern "C" ssize_t __real_send(int fd, const void *buf, size_t len, int flags);
+static int64_t tamper_max = -1;
+extern "C" ssize_t __wrap_send(int fd, const void *buf, size_t len, int flags)
+{
+	if (tamper_max >= 0 && len == sizeof(struct qb_ipc_connection_request) && ((const struct qb_ipc_request_header *)buf)->id == QB_IPC_MSG_AUTHENTICATE) {
+		struct qb_ipc_connection_request q; memcpy(&q, buf, sizeof q);
+		q.max_msg_size = (uint32_t)tamper_max; tamper_max = -1;
+		return __real_send(fd, &q, sizeof q, flags);
+	}
+	return __real_send(fd, buf, len, flags);
 }
 
 static sconn *find_sc(qb_ipcs_connection_t *c) { for (auto it = SC.rbegin(); it != SC.rend(); ++it) if (it->p == c && it->alive) return &*it; return NULL; }
@@ -287,15 +300,22 @@ extern "C" int verif_case(const uint8_t *data, size_t size, struct verif_report 
 				victim_dropped = false;
 				server_drain(200); note_idle();
 				next_role = ROLE_VICTIM;
+				/* every fourth victim lies in its handshake: it asks for a maximum message size no well-behaved client would (smaller than a message header, or just above it) */
+				static const uint32_t tiny[] = { 0, 1, 8, 15, 16, 17, 24, 40, 100, 1000 };
+				bool tampered = arg % 4 == 3;
+				tamper_max = tampered ? (int64_t)tiny[(arg >> 2) % (sizeof tiny / sizeof tiny[0])] : -1;
 				vic = client_connect(name.c_str(), 0, &err);
+				tamper_max = -1;
 				next_role = ROLE_RAW;
 				if (!vic) continue;
 				victims++;
 				VICTIM_MAX = vic->request.max_msg_size;
+				if (tampered) { VCLASS(r, K_TINYMAX); nontriv = true; VLOG(r, "victim: asked for a maximum message size of %u in its handshake\n", tiny[(arg >> 2) % (sizeof tiny / sizeof tiny[0])]); }
 				/* an honest first message (the socket transport connects its request socket on first use) */
 				struct qb_ipc_request_header *h = (struct qb_ipc_request_header *)sbuf; h->id = next_id; h->size = 32; memset(sbuf + sizeof *h, 0x11, 32 - sizeof *h);
 				SENT[next_id] = sent{ std::vector<uint8_t>(sbuf, sbuf + 32), 32, false }; next_id++;
 				ssize_t rc = qb_ipcc_send(vic, sbuf, 32);
+				if (rc < 0) SENT.erase(next_id - 1);
 				VLOG(r, "victim: connected (negotiated maximum %zu), honest 32-byte message -> %zd\n", VICTIM_MAX, rc);
 				if (type == QB_IPC_SOCKET) { int sz = (int)(VICTIM_MAX * 5); setsockopt(vic->request.u.us.sock, SOL_SOCKET, SO_SNDBUF, &sz, sizeof sz); }
 				VCLASS(r, K_HONEST);
